@@ -52,12 +52,13 @@ contract(F + "build_A",
 # ----------------------------------------------------------------------------------------- iter_tuples (generator)
 # ghost: mixed-radix weights w and rank;  the k-th yielded tuple is in the box and has rank k;  exactly P = w(n) yields.
 RANK_GHOST = dict(
-    ghost_funs=[GhostFun("w", "Int -> Int"), GhostFun("rank", "AInt Int -> Int")],
+    ghost_funs=[GhostFun("w", "Int -> Int"), GhostFun("rank", "AInt Int -> Int"), GhostFun("tmax", "-> AInt")],
     axioms=["w(0) == 1",
             "forall(a, implies(0 <= a and a < nt, w(a + 1) == w(a) * sizes[a]), pat=[w(a + 1)])",
             "forall([(t, AInt)], rank(t, 0) == 0)",
             "forall([(t, AInt), a], implies(0 <= a and a < nt, rank(t, a + 1) == rank(t, a) + t[a] * w(a)),"
-            " pat=[rank(t, a + 1)])"],
+            " pat=[rank(t, a + 1)])",
+            "forall(j, tmax[j] == sizes[j] - 1)"],          # the all-maximal tuple (definitional)
 )
 RANK_LEMMAS = [
     Lemma("w_pos", "w(a) >= 1", binders=[("a", "Int")], hyps=["0 <= a", "a <= nt"], method=("induction", "a", "0")),
@@ -72,6 +73,13 @@ RANK_LEMMAS = [
     Lemma("rank_suffix", "rank(t, b) - rank(t, a) == rank(t2, b) - rank(t2, a)",
           binders=[("t", "AInt"), ("t2", "AInt"), ("a", "Int"), ("b", "Int")],
           hyps=["0 <= a", "a <= b", "b <= nt", "forall(j, a, b, t[j] == t2[j])"], method=("induction", "b", "a")),
+    Lemma("rank_injective", "forall(j, 0, a, t[j] == t2[j])",
+          binders=[("t", "AInt"), ("t2", "AInt"), ("a", "Int")],
+          hyps=["0 <= a", "a <= nt", "forall(j, 0, a, 0 <= t[j] and t[j] < sizes[j] and 0 <= t2[j] and t2[j] < sizes[j])",
+                "rank(t, a) == rank(t2, a)"], method=("induction", "a", "0")),
+    Lemma("rank_max_inv", "forall(j, 0, nt, t[j] == sizes[j] - 1)", binders=[("t", "AInt")],
+          hyps=["forall(j, 0, nt, 0 <= t[j] and t[j] < sizes[j])", "rank(t, nt) == w(nt) - 1"],
+          hints=["rank(tmax, nt) == w(nt) - 1", "forall(j, 0, nt, 0 <= tmax[j] and tmax[j] < sizes[j])"]),
 ]
 
 contract(F + "iter_tuples",
